@@ -13,13 +13,14 @@ import cluster
 import real
 import xt
 
-THEOREMS = ["XmlDiffModel.C18_entries", "XmlDiffModel.C18_total_of_strict"]
+THEOREMS = ["XmlDiffModel.C18_entries", "XmlDiffModel.C18_total_of_strict", 'XmlDiffModel.C18_old_formatter_total_on_differ_scripts']
 PARTIAL = {
-    "C18_total (full statement)": "proved: for every script the documented (strict) semantics accepts, the formatter completes "
-    "and yields at least one entry per action (C18_total_of_strict, C18_entries); that differ scripts are accepted by the strict "
-    "semantics is proved only as far as C05 goes (addressing and attribute clauses; positions are checked per run by the strict replay)",
+    "C18_namespaces": "proved: for every script the documented (strict) semantics accepts, the formatter completes and yields at "
+    "least one entry per action (C18_total_of_strict, C18_entries), and every script the differ generates is such a script "
+    "(C18_old_formatter_total_on_differ_scripts, via C05_differ_script_accepted), for documents of any size and every good "
+    "matching. NOT proved: namespaced documents (outside the model; oracle stream only).",
 }
-LEAN_MODULES = ["XmlDiffModel.Props.C18"]
+LEAN_MODULES = ['XmlDiffModel.Props.C01', "XmlDiffModel.Props.C18"]
 SOURCES = ["formatting.XmlDiffFormatter", "patch.Patcher"]
 RULE = (
     "U11: XmlDiffFormatter().format(script, left) on real differ scripts vs. OldFormat.oldFormat; oracle: diff_trees / diff_texts "
